@@ -279,10 +279,10 @@ structure LI (n i : Nat) (R V : Nat → List Ty) (avail : IMap) (ch : Chain) (P 
   len : ch.length = n
   hc : ∀ j, (ch.get j).c.ret = R j ∧ (ch.get j).c.recv = V j
   a : ∀ d e q, e ∈ (ch.get d).usedByRet → q ∈ e.2 → i ≤ q ∧ q < d
-  b : ∀ d e q, e ∈ (ch.get d).usedByRet → q ∈ e.2 → q ≠ i → (R d).contains e.1 = true →
+  b : ∀ d e q, e ∈ (ch.get d).usedByRet → q ∈ e.2 → q ≠ i → (R d).contains e.1 = true → e.1 ≠ tUnused →
         e.1 ∈ V q ∧ remapT (ch.get q).upRmap e.1 = e.1
   l1 : ∀ t0 ∈ P, exactKey avail t0 → remapT (ch.get i).upRmap t0 = t0
-  l2 : ∀ d e, e ∈ (ch.get d).usedByRet → i ∈ e.2 → e.1 ∈ P ∧ ((R d).contains e.1 = true → exactKey avail e.1)
+  l2 : ∀ d e, e ∈ (ch.get d).usedByRet → i ∈ e.2 → e.1 ∈ P ∧ ((R d).contains e.1 = true → e.1 ≠ tUnused → exactKey avail e.1)
   hP : ∀ t ∈ P, t ∈ V i
 
 /-- an update that leaves `usedByRet`, `upRmap` and `c` alone -/
@@ -299,15 +299,15 @@ theorem LI_frame {n i R V avail ch P} (h : LI n i R V avail ch P) (k : Nat) (g :
     { len := by rw [upd_length]; exact h.len
       hc := fun j => by rw [(hu j).2.2]; exact h.hc j
       a := fun d e q he hq => h.a d e q (by rw [← (hu d).1]; exact he) hq
-      b := fun d e q he hq hqi hr => by
-        rw [(hu q).2.1]; exact h.b d e q (by rw [← (hu d).1]; exact he) hq hqi hr
+      b := fun d e q he hq hqi hr hne => by
+        rw [(hu q).2.1]; exact h.b d e q (by rw [← (hu d).1]; exact he) hq hqi hr hne
       l1 := fun t0 ht hk => by rw [(hu i).2.1]; exact h.l1 t0 ht hk
       l2 := fun d e he hi => h.l2 d e (by rw [← (hu d).1]; exact he) hi
       hP := h.hP }
 
 /-- one dependency `d` of provider `i` for the requested type `t` (already in `P`) -/
 theorem depStep_LI {n i R V avail ch P} {t : Ty} {d : Nat} (h : LI n i R V avail ch P) (hi : i < n) (hd : i < d) (hdn : d < n)
-    (htP : t ∈ P) (hex : (R d).contains t = true → exactKey avail t) :
+    (htP : t ∈ P) (hex : (R d).contains t = true → t ≠ tUnused → exactKey avail t) :
     LI n i R V avail (depStep .recv i t ch d) P := by
   unfold depStep
   simp only []
@@ -334,7 +334,7 @@ theorem depStep_LI {n i R V avail ch P} {t : Ty} {d : Nat} (h : LI n i R V avail
           · rw [hj]; exact h1.a d e0 q he0 hq0
           · rw [hqi, hj]; exact ⟨Nat.le_refl _, hd⟩
         · exact h1.a d' e q he hq
-      b := fun d' e q he hq hqi hr => by
+      b := fun d' e q he hq hqi hr hne => by
         have hup : ((ch1.upd d g2).get q).upRmap = (ch1.get q).upRmap := by
           rw [hget]; split
           · rename_i hj; rw [hj]
@@ -345,10 +345,10 @@ theorem depStep_LI {n i R V avail ch P} {t : Ty} {d : Nat} (h : LI n i R V avail
         · rename_i hj
           rcases mem_appendAt_entry he hq with ⟨e0, he0, hk0, hq0⟩ | ⟨_, hqi'⟩
           · rw [hj] at hr
-            have := h1.b d e0 q he0 hq0 hqi (by rw [hk0]; exact hr)
+            have := h1.b d e0 q he0 hq0 hqi (by rw [hk0]; exact hr) (by rw [hk0]; exact hne)
             rw [hk0] at this; exact this
           · exact absurd hqi' hqi
-        · exact h1.b d' e q he hq hqi hr
+        · exact h1.b d' e q he hq hqi hr hne
       l1 := fun t0 ht hk => by
         have hup : ((ch1.upd d g2).get i).upRmap = (ch1.get i).upRmap := by
           rw [hget]; split
@@ -375,7 +375,7 @@ theorem depStep_LI {n i R V avail ch P} {t : Ty} {d : Nat} (h : LI n i R V avail
 
 theorem deps_foldl_LI {n i R V avail P} {t : Ty} (hi : i < n) (htP : t ∈ P) :
     ∀ (deps : List Nat) (ch : Chain), LI n i R V avail ch P →
-      (∀ d ∈ deps, i < d ∧ d < n ∧ ((R d).contains t = true → exactKey avail t)) →
+      (∀ d ∈ deps, i < d ∧ d < n ∧ ((R d).contains t = true → t ≠ tUnused → exactKey avail t)) →
       LI n i R V avail (deps.foldl (depStep .recv i t) ch) P
   | [], _, h, _ => h
   | d :: deps, ch, h, hd => by
@@ -387,7 +387,7 @@ theorem deps_foldl_LI {n i R V avail P} {t : Ty} (hi : i < n) (htP : t ∈ P) :
     every type such a provider returns has an exact entry -/
 structure AV (n i : Nat) (R : Nat → List Ty) (avail : IMap) : Prop where
   c : ∀ e ∈ avail, ∀ p ∈ e.2.2, i < p ∧ p < n
-  d : ∀ e ∈ avail, ∀ p ∈ e.2.2, ∀ t ∈ R p, t ≠ tNoType → exactKey avail t
+  d : ∀ e ∈ avail, ∀ p ∈ e.2.2, ∀ t ∈ R p, t ≠ tNoType → t ≠ tUnused → exactKey avail t
 
 theorem typeStep_LI {ti : TyInfo} {n i R V avail ch P} {t : Ty} (h : LI n i R V avail ch P) (hav : AV n i R avail) (hi : i < n)
     (htV : t ∈ V i) (htn : t ≠ tNoType) : LI n i R V avail (typeStep ti avail .recv i ch t) (P ++ [t]) := by
@@ -437,12 +437,12 @@ theorem typeStep_LI {ti : TyInfo} {n i R V avail ch P} {t : Ty} (h : LI n i R V 
           rw [hget] at he; split at he
           · rename_i hj; rw [hj]; exact h.a i e q he hq
           · exact h.a d e q he hq
-        b := fun d e q he hq hqi hr => by
+        b := fun d e q he hq hqi hr hne => by
           have hup : (ch1.get q).upRmap = (ch.get q).upRmap := by rw [hget]; simp [hqi]
           rw [hup]
           rw [hget] at he; split at he
-          · rename_i hj; rw [hj] at hr; exact h.b i e q he hq hqi hr
-          · exact h.b d e q he hq hqi hr
+          · rename_i hj; rw [hj] at hr; exact h.b i e q he hq hqi hr hne
+          · exact h.b d e q he hq hqi hr hne
         l1 := fun t0 ht hk => by
           have hup : (ch1.get i).upRmap = setKey (ch.get i).upRmap t found := by rw [hget]; simp [rmapStep]
           rw [hup]
@@ -467,8 +467,8 @@ theorem typeStep_LI {ti : TyInfo} {n i R V avail ch P} {t : Ty} (h : LI n i R V 
     intro d hd
     obtain ⟨e, he, hde⟩ := bm_deps_mem hb d hd
     have ⟨hid, hdn⟩ := hav.c e he d hde
-    refine ⟨hid, hdn, fun hr => ?_⟩
-    exact hav.d e he d hde t (by simpa using hr) htn
+    refine ⟨hid, hdn, fun hr hne => ?_⟩
+    exact hav.d e he d hde t (by simpa using hr) htn hne
 
 theorem types_foldl_LI {ti : TyInfo} {n i R V avail} (hav : AV n i R avail) (hi : i < n) :
     ∀ (l : List Ty) (ch : Chain) (P : List Ty), LI n i R V avail ch P → (∀ t ∈ l, t ∈ V i ∧ t ≠ tNoType) →
@@ -488,10 +488,10 @@ structure UI (n lo : Nat) (R V : Nat → List Ty) (avail : IMap) (ch : Chain) : 
   len : ch.length = n
   hc : ∀ j, (ch.get j).c.ret = R j ∧ (ch.get j).c.recv = V j
   a : ∀ d e q, e ∈ (ch.get d).usedByRet → q ∈ e.2 → lo ≤ q ∧ q < d
-  b : ∀ d e q, e ∈ (ch.get d).usedByRet → q ∈ e.2 → (R d).contains e.1 = true →
+  b : ∀ d e q, e ∈ (ch.get d).usedByRet → q ∈ e.2 → (R d).contains e.1 = true → e.1 ≠ tUnused →
         e.1 ∈ V q ∧ remapT (ch.get q).upRmap e.1 = e.1
   c : ∀ e ∈ avail, ∀ p ∈ e.2.2, lo ≤ p ∧ p < n
-  dd : ∀ e ∈ avail, ∀ p ∈ e.2.2, ∀ t ∈ R p, t ≠ tNoType → exactKey avail t
+  dd : ∀ e ∈ avail, ∀ p ∈ e.2.2, ∀ t ∈ R p, t ≠ tNoType → t ≠ tUnused → exactKey avail t
 
 theorem UI_weaken {n lo R V avail ch} (h : UI n (lo + 1) R V avail ch) : UI n lo R V avail ch :=
   { h with a := fun d e q he hq => ⟨Nat.le_of_succ_le (h.a d e q he hq).1, (h.a d e q he hq).2⟩
@@ -504,7 +504,7 @@ theorem requireParams_UI {ti : TyInfo} {n i R V avail ch} (h : UI n (i + 1) R V 
   have h0 : LI n i R V avail ch [] :=
     { len := h.len, hc := h.hc
       a := fun d e q he hq => ⟨Nat.le_of_succ_le (h.a d e q he hq).1, (h.a d e q he hq).2⟩
-      b := fun d e q he hq _ hr => h.b d e q he hq hr
+      b := fun d e q he hq _ hr hne => h.b d e q he hq hr hne
       l1 := fun t0 ht _ => by cases ht
       l2 := fun d e he hie => by have := (h.a d e i he hie).1; omega
       hP := fun t ht => by cases ht }
@@ -519,12 +519,12 @@ theorem requireParams_UI {ti : TyInfo} {n i R V avail ch} (h : UI n (i + 1) R V 
   obtain ⟨P', h2⟩ := types_foldl_LI (ti := ti) hav hi _ _ _ h1 hfl
   exact
     { len := h2.len, hc := h2.hc, a := h2.a
-      b := fun d e q he hq hr => by
+      b := fun d e q he hq hr hne => by
         by_cases hqi : q = i
         · subst hqi
           have ⟨hp, hex⟩ := h2.l2 d e he hq
-          exact ⟨h2.hP _ hp, h2.l1 _ hp (hex hr)⟩
-        · exact h2.b d e q he hq hqi hr
+          exact ⟨h2.hP _ hp, h2.l1 _ hp (hex hr hne)⟩
+        · exact h2.b d e q he hq hqi hr hne
       c := fun e he p hp => ⟨Nat.le_of_succ_le (h.c e he p hp).1, (h.c e he p hp).2⟩
       dd := h.dd }
 
@@ -554,7 +554,8 @@ theorem provideParams_UI {n i R V avail ch} (layer : Nat) (h : UI n i R V avail 
   have hil : i < ch.length := by rw [h.len]; exact hi
   have hget : ∀ j, (ch.upd i fun f => { f with usedByRet := [] }).get j = if j = i then { (ch.get i) with usedByRet := [] } else ch.get j := by
     intro j; rw [get_upd]; simp [hil]
-  have ⟨s1, s2, s3⟩ := adds_foldl_spec layer i ((ch.get i).c.ret.filter (· != tNoType)) avail
+  have ⟨s1, s2, s3⟩ := adds_foldl_spec layer i
+    ((ch.get i).c.ret.filter (fun t => t != tNoType && (t != tUnused || (ch.get i).c.synthetic))) avail
   exact
     { len := by rw [upd_length]; exact h.len
       hc := fun j => by
@@ -565,7 +566,7 @@ theorem provideParams_UI {n i R V avail ch} (layer : Nat) (h : UI n i R V avail 
         rw [hget] at he; split at he
         · cases he
         · exact h.a d e q he hq
-      b := fun d e q he hq hr => by
+      b := fun d e q he hq hr hne => by
         have hup : ((ch.upd i fun f => { f with usedByRet := [] }).get q).upRmap = (ch.get q).upRmap := by
           rw [hget]; split
           · rename_i hj; rw [hj]
@@ -573,18 +574,18 @@ theorem provideParams_UI {n i R V avail ch} (layer : Nat) (h : UI n i R V avail 
         rw [hup]
         rw [hget] at he; split at he
         · cases he
-        · exact h.b d e q he hq hr
+        · exact h.b d e q he hq hr hne
       c := fun e he p hp => by
         rcases s1 e he p hp with ⟨e0, he0, hp0⟩ | hpi
         · exact h.c e0 he0 p hp0
         · rw [hpi]; exact ⟨Nat.le_refl _, hi⟩
-      dd := fun e he p hp t ht hn => by
+      dd := fun e he p hp t ht hn hne => by
         rcases s1 e he p hp with ⟨e0, he0, hp0⟩ | hpi
-        · exact s2 t (h.dd e0 he0 p hp0 t ht hn)
+        · exact s2 t (h.dd e0 he0 p hp0 t ht hn hne)
         · apply s3
           rw [hpi] at ht
           rw [(h.hc i).1]
-          exact List.mem_filter.mpr ⟨ht, by simpa using hn⟩ }
+          exact List.mem_filter.mpr ⟨ht, by simp [hn, hne]⟩ }
 
 theorem upStep_UI {ti : TyInfo} {n m i R V} {acc : Chain × IMap} (h : UI n (i + 1) R V acc.2 acc.1) (hi : i < n) :
     UI n i R V (upStep ti m acc i).2 (upStep ti m acc i).1 := by
@@ -607,7 +608,7 @@ theorem up_foldl_UI {ti : TyInfo} {n m R V} : ∀ (k : Nat), k ≤ n → ∀ (ac
     a type that `d` returns is listed before `d` and does receive that type -/
 theorem providesReturns_prov (ti : TyInfo) (ch : Chain) (initPos : Option Nat) (hip : ∀ ip, initPos = some ip → ip < ch.length) :
     ∀ d e q, e ∈ ((providesReturns ti ch initPos).get d).usedByRet → q ∈ e.2 →
-      q < d ∧ (((providesReturns ti ch initPos).get d).c.ret.contains e.1 = true →
+      q < d ∧ (((providesReturns ti ch initPos).get d).c.ret.contains e.1 = true → e.1 ≠ tUnused →
         ((providesReturns ti ch initPos).get q).recvTypes.contains e.1 = true) := by
   have hsf := providesReturns_SF ti ch initPos
   rw [providesReturns_eq] at hsf ⊢
@@ -628,18 +629,18 @@ theorem providesReturns_prov (ti : TyInfo) (ch : Chain) (initPos : Option Nat) (
     { len := sfd.1
       hc := fun j => by rw [(sfd.2 j).2.2.1]; exact ⟨rfl, rfl⟩
       a := fun d e q he _ => by rw [hd1 d] at he; cases he
-      b := fun d e q he _ _ => by rw [hd1 d] at he; cases he
+      b := fun d e q he _ _ _ => by rw [hd1 d] at he; cases he
       c := fun e he => by cases he
       dd := fun e he => by cases he }
   have u1 := up_foldl_UI (ti := ti) (m := ch.length) ch.length (Nat.le_refl _)
     (((List.range ch.length).foldl (downStep ti initPos) (ch.map resetDeps, ([] : IMap))).1, ([] : IMap)) u0
   intro d e q he hq
-  refine ⟨(u1.a d e q he hq).2, fun hr => ?_⟩
+  refine ⟨(u1.a d e q he hq).2, fun hr hne => ?_⟩
   have hrd : (((List.range ch.length).reverse.foldl (upStep ti ch.length)
       (((List.range ch.length).foldl (downStep ti initPos) (ch.map resetDeps, ([] : IMap))).1, ([] : IMap))).1.get d).c.ret
       = (ch.get d).c.ret := (u1.hc d).1
   rw [hrd] at hr
-  have ⟨hv, hm⟩ := u1.b d e q he hq hr
+  have ⟨hv, hm⟩ := u1.b d e q he hq hr hne
   unfold IP.recvTypes
   rw [List.contains_iff_mem]
   rw [(u1.hc q).2]
@@ -654,7 +655,7 @@ theorem inclusionBeforeFinal_provOK (ti : TyInfo) (funcs : List CP) (cannot0 : L
     (h : inclusionBeforeFinal ti funcs cannot0 = .ok pre) : provOKB pre = true := by
   have hst := inclusionBeforeFinal_static ti funcs cannot0 pre h
   have hprov : ∀ d e q, e ∈ (pre.get d).usedByRet → q ∈ e.2 →
-      q < d ∧ ((pre.get d).c.ret.contains e.1 = true → (pre.get q).recvTypes.contains e.1 = true) := by
+      q < d ∧ ((pre.get d).c.ret.contains e.1 = true → e.1 ≠ tUnused → (pre.get q).recvTypes.contains e.1 = true) := by
     unfold inclusionBeforeFinal at h
     split at h
     · cases h
@@ -673,11 +674,13 @@ theorem inclusionBeforeFinal_provOK (ti : TyInfo) (funcs : List CP) (cannot0 : L
   simp only [Bool.and_eq_true, beq_iff_eq, List.all_eq_true, Bool.or_eq_true, Bool.not_eq_true', decide_eq_true_eq]
   refine ⟨⟨hp, hm⟩, fun e he => ?_⟩
   cases hc : (pre.get i).c.ret.contains e.1 with
-  | false => exact Or.inl rfl
+  | false => exact Or.inl (Or.inl rfl)
   | true =>
-    right
-    intro q hq
-    have ⟨a, b⟩ := hprov i e q he hq
-    exact ⟨a, b hc⟩
+    by_cases hne : e.1 = tUnused
+    · exact Or.inl (Or.inr hne)
+    · right
+      intro q hq
+      have ⟨a, b⟩ := hprov i e q he hq
+      exact ⟨a, b hc hne⟩
 
 end Nject
